@@ -30,11 +30,12 @@ func Identity(query string, vars map[string]interface{}) string {
 // FailureSignals are the kinds after which the client must see a non-empty `errors`.
 var FailureSignals = map[string]bool{
 	"transport": true, "status500": true, "notjson": true, "notarray": true, "tooshort": true, "toolong": true,
-	"errors": true, "errorsall": true, "nodata": true, "nulldata": true, "nonode": true, "nodestring": true,
+	"errors": true, "errorsall": true, "errorswithdata": true, "statusother": true, "nodata": true, "nulldata": true, "nonode": true, "nodestring": true,
 }
 
 var AllFaultKinds = []string{
-	"transport", "status500", "notjson", "notarray", "tooshort", "toolong", "errors", "errorsall", "nodata", "nulldata",
+	"transport", "status500", "statusother", "notjson", "notarray", "tooshort", "toolong", "errors", "errorsall", "errorswithdata", "nodata", "nulldata",
+	"emptylistforobject",
 	"nonode", "nodestring", "nodelist", "listforobject", "objectforlist", "scalarinlist", "nullleaf", "extrakey",
 }
 
@@ -124,6 +125,20 @@ func (f FaultSpec) Apply(applied *bool) Fault {
 				es = append(es, e)
 			}
 			resp[pos] = map[string]interface{}{"data": nil, "errors": es}
+		case "errorswithdata":
+			// partial success: the honest data AND errors
+			es := []interface{}{}
+			for _, e := range f.Errors {
+				es = append(es, e)
+			}
+			resp[pos]["errors"] = es
+		case "statusother":
+			// a non-2xx status that is not 500, with a perfectly well-formed body
+			*applied = true
+			out, _ := json.Marshal(resp)
+			return []int{300, 302, 400, 403, 404, 429, 503}[(f.Call+f.Pos+len(f.Svc))%7], out, nil, true
+		case "emptylistforobject":
+			ok = mutateFirst(data, isObj, func(v interface{}) interface{} { return []interface{}{} })
 		case "errorsall":
 			// every sub-request of the batch is answered with its own errors
 			for i := range resp {
